@@ -26,6 +26,49 @@ def mixes():
     return {"tiny": (tiny, []), "literal": (lit, []), "sums": (sums_src, sums_dst), "mixed": (mixed, mixed_dst)}
 
 
+WIRE_CFG = "SPECIFICATION WSpec\nCONSTANTS\n NF = %d\n NSums = 1\n NToks = 1\n CapUp = %d\n CapDown = %d\n SplitGenRcv = TRUE\nCHECK_DEADLOCK FALSE\n"
+
+
+def capclass(c):
+    return 0 if c == -2 else 1000
+
+
+def wire_validate(w, wtraces, label):
+    """Action-level validation: one TLC run of SessionWire per (NF, capacity class) group."""
+    tf = w.path("c18-wire-%s.ndjson" % label)
+    write_ndjson(tf, wtraces, clamp=True)
+    rej, gen, dist, runs = {}, 0, 0, 0
+    for nf, cu, cd in sorted({(t["nf"], t["cu"], t["cd"]) for t in wtraces}):
+        r = w.tlc("SessionWire", WIRE_CFG % (nf, cu, cd), env={"VERIF_TRACE": tf}, workers=1, label="SessionWire-%s-%d-%d-%d" % (label, nf, cu, cd), timeout=1800)
+        if not r["completed"]:
+            raise Broken("SessionWire validation did not complete: " + r["out"][-3000:])
+        for i, l in r["rejects"]:
+            rej[i] = l
+        gen += r["generated"]
+        dist += r["distinct"]
+        runs += 1
+    return rej, gen, dist, runs
+
+
+def wire_traces(lines, byid):
+    out = []
+    for ln in lines:
+        if not ln.get("wire"):
+            continue
+        o = byid[ln["id"]]
+        if o.get("result") != "ok":
+            continue                       # judged by SessionTrace (termination, result)
+        wi = o.get("wire")
+        if not wi:
+            raise Broken("no action-level trace for scenario %d" % ln["id"])
+        if wi.get("err"):
+            raise Broken("the recorded streams of scenario %d could not be parsed into Session items: %s" % (ln["id"], wi["err"]))
+        if wi["nf"] < 1:
+            continue
+        out.append({"id": ln["id"], "nf": wi["nf"], "cu": capclass(ln.get("capup", 0)), "cd": capclass(ln.get("capdown", 0)), "events": wi["events"]})
+    return out
+
+
 def digest(o):
     nodes = sorted((n["p"], n["t"], n.get("c"), n.get("sz"), n.get("tgt")) for n in o.get("final") or [])
     return hashlib.sha1(json.dumps([nodes, sorted(o.get("extra") or [])]).encode()).hexdigest()[:16]
@@ -68,7 +111,7 @@ def check(w):
                     if quick and rnd.random() < 0.5 and (cu, cd) not in ((-2, -2), (1, 1), (-2, 0), (0, -2)):
                         continue
                     chunk = rnd.choice([0, 0, 7, 4096]) if name in ("literal", "sums") else rnd.choice([0, 1, 3, 4096])
-                    lines.append(dict(base, capup=cu, capdown=cd, chunk=chunk, jitter=rnd.randrange(1, 1 << 30), group=(name, arr)))
+                    lines.append(dict(base, capup=cu, capdown=cd, chunk=chunk, jitter=rnd.randrange(1, 1 << 30), group=(name, arr), wire=(arr == "lib")))
         lines.append({"family": "c18", "universe": uni, "src": src, "dst": dst, "flags": ["-rt"], "arr": "local", "form": "slash", "judge": [], "echo": {"mix": name}, "group": (name, "lib")})
         # a fault in the middle of the transfer, with buffers too small to hold what is still in flight
         for arr in ("lib", "libpush"):
@@ -181,6 +224,50 @@ def check(w):
     r2 = w.tlc("SessionTrace", TRACE_CFG, env={"VERIF_TRACE": tf2}, label="SessionTrace-negctl")
     if set(i for i, _ in r2["rejects"]) != {c["id"] for c in bad}:
         raise Broken("negative control: hangs/races accepted by SessionTrace")
+    # ---- 4. action-level validation of the pull sessions against Session.tla (SessionWire)
+    wtr = wire_traces(lines, byid)
+    if len(wtr) < 10:
+        raise Broken("only %d action-level traces recorded" % len(wtr))
+    wrej, wgen, wdist, wruns = wire_validate(w, wtr, "all")
+    if wrej:
+        again = [ln for ln in lines if ln["id"] in wrej]
+        write_ndjson(w.path("c18-wire-again.ndjson"), [{k: x for k, x in ln.items() if k not in ("group", "baseline", "fault")} for ln in again])
+        w.run_harness("sync", w.path("c18-wire-again.ndjson"), w.path("c18-wire-again-obs.ndjson"), case_timeout=300)
+        byid2 = {o["id"]: o for o in read_ndjson(w.path("c18-wire-again-obs.ndjson")) if "id" in o and "final" in o}
+        wtr2 = wire_traces([ln for ln in again if ln["id"] in byid2], byid2)
+        wrej2 = wire_validate(w, wtr2, "confirm")[0] if wtr2 else {}
+        if not wrej2:
+            raise Broken("action-level rejections not reproduced on re-run: %s" % sorted(wrej)[:8])
+        for t in wtr2:
+            if t["id"] in wrej2:
+                ln = next(x for x in lines if x["id"] == t["id"])
+                k = wrej2[t["id"]]
+                v.violation({"what": "action-order", "kind": "cap", "arr": "lib", "mix": ln["echo"]["mix"], "item": t["events"][k - 1]["item"] if 0 < k <= len(t["events"]) else "end"},
+                            {"scenario": {x: ln.get(x) for x in ("arr", "capup", "capdown", "chunk", "jitter")}, "rejected_at_event": k,
+                             "events_around": t["events"][max(0, k - 6):k + 2], "note": "the logged put is not enabled in Session.tla after the eager silent steps"})
+    # negative controls for SessionWire: swapped causally ordered events; a run-ahead trace relabelled as rendezvous
+    wgood = [t for t in wtr if t["id"] not in wrej]
+    wbad = []
+    for t in rnd.sample(wgood, min(12, len(wgood))):
+        ev = [dict(e) for e in t["events"]]
+        how = rnd.choice(["ack", "stats", "ans"])
+        pos = {(e["ch"], e["item"], e["f"]): k for k, e in enumerate(ev)}
+        if how == "ack":
+            i, j = pos[("up", "m", 1)], pos[("down", "ack", 1)]
+        elif how == "stats":
+            i, j = pos[("down", "stats", 0)], pos[("up", "bye", 0)]
+        else:
+            f = rnd.randrange(1, t["nf"] + 1)
+            i, j = pos[("up", "sum", f)], pos[("down", "ans", f)]
+        ev[i], ev[j] = ev[j], ev[i]
+        wbad.append(dict(t, id=20_000_000 + t["id"], events=ev))
+    ahead = [t for t in wgood if t["cu"] == 1000 and t["nf"] >= 2 and
+             next(k for k, e in enumerate(t["events"]) if e["item"] == "idx" and e["f"] == 2) < next(k for k, e in enumerate(t["events"]) if e["item"] == "ans" and e["f"] == 1)]
+    for t in ahead[:3]:
+        wbad.append(dict(t, id=30_000_000 + t["id"], cu=0))
+    nrej = wire_validate(w, wbad, "negctl")[0]
+    if set(nrej) != {t["id"] for t in wbad}:
+        raise Broken("negative control: causally impossible event orders accepted by SessionWire: %s" % sorted({t["id"] for t in wbad} - set(nrej))[:5])
     capt = [t for t in traces if t["kind"] in ("cap", "caperr")]
     conct = [t for t in traces if t["kind"] == "conc"]
     v.coverage = {
@@ -191,8 +278,10 @@ def check(w):
         "rule": "cap: a real client <-> real server transfer (library pull and push; local copy over io.Pipe) over a transport with capacity {rendezvous, 1 B, 17 B, 64 KiB, unbounded} per direction, read chunking {1, 3, 7, 4096 B} and random yields, "
                 "on trees of 150 tiny files / a 2 MiB literal / a 2 MiB file with a full checksum list / a mix; conc: 2..32 simultaneous pulls, pushes or both against one daemon, distinct and identical targets, GOMAXPROCS 1/2/16, race detector on; "
                 "non-trivial = a bounded capacity in at least one direction, or a concurrent scenario",
-        "action_coverage": cov, "negative_controls": len(bad), "mutant_deadlocks_in_model": True,
+        "action_coverage": cov, "negative_controls": len(bad) + len(wbad), "mutant_deadlocks_in_model": True,
+        "action_level_traces": len(wtr), "action_level_events": sum(len(t["events"]) for t in wtr), "action_level_rendezvous_traces": sum(1 for t in wtr if t["cu"] == 0 or t["cd"] == 0),
+        "action_level_run_ahead_traces": len(ahead), "action_level_tlc_runs": wruns, "action_level_states": wdist,
     }
     v.assumptions = ["a hang is reported only when no byte moved on the transport for 3 s and the session had not finished (goroutine dump attached)",
-                     "the ordered transport log is not yet validated action by action against Session.tla (only termination, result and equality with the baseline are)"]
+                     "action-level validation (SessionWire) covers the pull arrangement and logs puts only: both ends read through bufio, so the moment an item is consumed is not observable; byte capacities > 0 are validated against an unbounded channel, rendezvous against capacity 0"]
     return v.finish()
